@@ -28,6 +28,8 @@ Suppressions:
 import logging
 import re
 from contextlib import suppress
+from functools import lru_cache
+from itertools import islice
 from pathlib import Path
 from typing import TYPE_CHECKING
 
@@ -168,8 +170,11 @@ def _read_file_first_lines(file_path: Path) -> list[str]:
     if not file_path.exists():
         return []
     try:
-        content = file_path.read_text(encoding="utf-8")
-        return content.splitlines()[:HEADER_SCAN_LINES]
+        # only the header is needed: do not read and split a whole (possibly huge) file for
+        # every violation reported in it
+        with file_path.open(encoding="utf-8") as handle:
+            head = "".join(islice(handle, HEADER_SCAN_LINES))
+        return head.splitlines()[:HEADER_SCAN_LINES]
     except (UnicodeDecodeError, OSError) as e:
         logger.debug("Failed to read file %s: %s", file_path, e)
         return []
@@ -211,14 +216,26 @@ def _check_specific_rule_in_line(code: str, rule_id: str) -> bool:
 
 def _has_file_ignore_in_content(file_content: str, rule_id: str | None) -> bool:
     """Check if file content has ignore-file directive."""
-    lines = file_content.splitlines()[:HEADER_SCAN_LINES]
+    lines = _lines_and_block_flag(file_content)[0][:HEADER_SCAN_LINES]
     return any(_check_line_for_ignore(line, rule_id) for line in lines)
+
+
+@lru_cache(maxsize=8)
+def _lines_and_block_flag(file_content: str) -> tuple[list[str], bool]:
+    """Lines of a file and whether any ignore-start marker can occur in it.
+
+    Every violation of a file is checked against the same content; splitting it and scanning
+    all its lines for block markers once per violation made the work quadratic (a generated
+    file with 10,000 small functions took the better part of an hour).
+    """
+    # the list is shared between calls and only ever read
+    return file_content.splitlines(), "ignore-start" in file_content.lower()
 
 
 def _is_ignored_in_content(file_content: str, violation: "Violation") -> bool:
     """Check content-based ignores (block, line, method level)."""
-    lines = file_content.splitlines()
-    if _check_block_ignore(lines, violation):
+    lines, may_have_blocks = _lines_and_block_flag(file_content)
+    if may_have_blocks and _check_block_ignore(lines, violation):
         return True
     if _check_prev_line_ignore(lines, violation):
         return True
